@@ -10,7 +10,7 @@
    the property as an executable predicate over such a trace; the driver evaluates the same
    [check] on the traces of the Go implementation. *)
 From Coq Require Import NArith List Bool.
-From C28 Require Import Model ProofsRefute ProofsRun ProofsPow2 ProofsUncond ProofsStore.
+From C28 Require Import Model ProofsRefute ProofsRun ProofsPow2 ProofsUncond ProofsStore ProofsSlack.
 Import ListNotations.
 Local Open Scope N_scope.
 
@@ -89,6 +89,41 @@ Example C28_nonvacuous_multibyte :
     ++ map (fun k => RVal (N.of_nat k)) (seq 1 33) ++ [RVal 9; RVal 8; RVal 7; RVal 6; RVal 5]
   /\ check c (run fixed c zero_mem ops) = true.
 Proof. split; vm_compute; reflexivity. Qed.
+
+(* The slack of a rounded-up block (the bytes between the requested size and the block size
+   8 * 2^order).  Allocate looks at the requested size only through the 32 MiB test and the order,
+   which are the same for [size] and [rsz size]: the allocator cannot tell the two requests apart
+   (first theorem).  So a guest that also uses the slack is, for the allocator, a guest that asked
+   for the whole block, and C28_spec about the operation list with every request rounded up to its
+   block size ([round_up]) is the statement about that guest (second theorem): there the observer's
+   live range of an allocation is the whole block ([rsz (round_size s) = round_size s]), stores and
+   loads anywhere in the block are performed and checked for preservation, and no-overlap is about
+   the whole rounded-up blocks.  The driver evaluates `check` in this form on the harness cases
+   `sqr`, whose Go side calls Allocate with the original sizes and lets the guest use whole blocks. *)
+Theorem C28_request_size_irrelevant : forall v s m size, size <= max_alloc ->
+  alloc v s m (rsz size) = alloc v s m size /\ rsz (round_size size) = round_size size.
+Proof. intros v s m size H. split; [now apply alloc_round_up|now apply rsz_round_size]. Qed.
+Print Assumptions C28_request_size_irrelevant.
+
+Theorem C28_whole_block : forall c init ops,
+  c_pages c <= max_wasm_pages ->
+  (forall a, align_up (c_hb c) <= a -> init a = 0) ->
+  check c (run fixed c init (round_up ops)) = true.
+Proof. exact check_run_rounded. Qed.
+Print Assumptions C28_whole_block.
+
+(* non-vacuity: requests of 5 and 9 bytes get blocks of 8 and 16; the guest stores into the last
+   byte of each block (slack), another allocation, a free and a reuse happen, the bytes read back;
+   with the requests as given the same stores are outside the observer's live ranges (skipped) *)
+Example C28_nonvacuous_slack :
+  let c := mkCfg 0 1 16 in
+  let ops := [OAlloc 5; OAlloc 9; OWrite 15 77; OWrite 39 88; OAlloc 100; ORead 39; OFree 24; OAlloc 3; ORead 15] in
+  map (fun x => o_res (snd x)) (run fixed c zero_mem (round_up ops))
+  = [RPtr 8; RPtr 24; ROk; ROk; RPtr 48; RVal 88; ROk; RPtr 184; RVal 77]
+  /\ check c (run fixed c zero_mem (round_up ops)) = true
+  /\ map (fun x => o_res (snd x)) (run fixed c zero_mem ops)
+  = [RPtr 8; RPtr 24; RSkip; RSkip; RPtr 48; RSkip; ROk; RPtr 184; RSkip].
+Proof. repeat split; vm_compute; reflexivity. Qed.
 
 (* non-vacuity of the 4 GiB clause: a memory object that would allow 131072 pages; the heap base
    sits at the end of the 40000 pages present, so the first Allocate has to grow: doubling would
